@@ -238,6 +238,8 @@ def check_for_exception(sObjectValue, self, oToi, iIndex, iLine):
 def does_not_contain_any_alpha_characters(sObjectValue):
     if sObjectValue.startswith('"'):
         return True
+    if sObjectValue.startswith("'"):
+        return True
     return False
 
 
